@@ -1074,7 +1074,7 @@ Library read_gds(const char* filename, double unit, double tolerance, const Set<
             case GdsiiRecord::RAITHPXXDATA:
                 if (path) {
                     PXXData pxxdata;
-                    memcpy(&pxxdata, buffer + 4, record_length);
+                    memcpy(&pxxdata, buffer + 4, sizeof(PXXData));
                     path->raith_data.from_pxxdata(pxxdata);
                 }
                 break;
